@@ -167,16 +167,17 @@ def unit_on_policy(S):
 
         def train_stub(self, policy_, opt_state, buffer, *, key):
             return policy_, buffer, {"loss": jnp.asarray(0.0)}  # the rollout is returned in place of the optimiser state so that it is observable
+        cls = type(algo)
+        rp = native_lane_replay((lambda n, cls=cls: cls(num_envs=n, num_steps=2, num_batches=1) if cls is PPO else cls(num_envs=n, num_steps=2)),
+                                (lambda n, rng, mk_state=mk_state: mk_state(jnp.asarray(0), *[jnp.asarray(rng.randn(*s), f32) for s in ((n, 2), (n, 1), (n, 1), (2,), (3,), (1,))])),
+                                (cls, "train", train_stub))
+        S.default_replay = rp      # also the native witness if the batched program cannot be extracted (e.g. collectives over the environment axis)
         with extract.patched((type(algo), "train", train_stub)):
             out = run(ctx, lambda a, s, kk: a.iteration(s, key=kk, callback=cb), algo, st, k)
         i, ic = kit.int_scalar("lane")
         Nz = ctx.dim(N)
         make_single = lambda hk: run(ctx, lambda a, s, kk, ii: a.collect_rollout(s.env, s.policy, _lane(s.step_state, ii), cb, kk), algo, st, hk, i)
         hyp = [Nz >= 2, ic >= 0, ic < Nz]
-        cls = type(algo)
-        rp = native_lane_replay((lambda n, cls=cls: cls(num_envs=n, num_steps=2, num_batches=1) if cls is PPO else cls(num_envs=n, num_steps=2)),
-                                (lambda n, rng, mk_state=mk_state: mk_state(jnp.asarray(0), *[jnp.asarray(rng.randn(*s), f32) for s in ((n, 2), (n, 1), (n, 1), (2,), (3,), (1,))])),
-                                (cls, "train", train_stub))
         ss_b, buf_b = out.step_state, out.opt_state
         lane_obligations(S, ctx, name, (ss_b, buf_b), make_single, ic, kc, hyp, fn, rp,
                          "lane i of the N-environment collection equals the single-environment collection from step_state[i] and that environment's own key: nothing crosses between environments",
